@@ -1,0 +1,6 @@
+//! Hooks for the cone properties C13 (Nesterov-Todd scaling identities) and C15 (step
+//! lengths): re-exports of the crate-private cone module and pub wrappers.  Read-only.
+pub use crate::solver::core::cones::*;
+pub use crate::solver::core::ScalingStrategy;
+pub use crate::solver::implementations::default::verif_shift_to_cone_interior;
+pub use crate::solver::CoreSettings;
